@@ -293,11 +293,28 @@ def generate(repo, names):
                 fns.append("    %s {\n%s\n// ---- lifted verbatim from %s::%s ----\n%s\n// ---- end of lifted text ----\n%s\n    }\n" % (
                     q["sig"], q.get("pre", ""), q["file"], q["fn"], seg, q.get("post", "")))
             seen = set()
+            names = set()
             uses_u = []
             for u in uses_all:
-                if u not in seen and "super::*" not in u:
-                    seen.add(u)
-                    uses_u.append(u)
+                if u in seen or "super::*" in u:
+                    continue
+                seen.add(u)
+                # segments lifted from several files: drop names an earlier `use` already brought in
+                m = re.match(r"^use\s+([\w:]+)::\{([^}]*)\};\s*$", u.strip())
+                if m:
+                    items = [x.strip() for x in m.group(2).split(",") if x.strip()]
+                    keep = [x for x in items if x.split(" as ")[-1].strip() not in names]
+                    names.update(x.split(" as ")[-1].strip() for x in keep)
+                    if not keep:
+                        continue
+                    u = "use %s::{%s};" % (m.group(1), ", ".join(keep))
+                else:
+                    m2 = re.match(r"^use\s+[\w:]+::(\w+);\s*$", u.strip())
+                    if m2:
+                        if m2.group(1) in names:
+                            continue
+                        names.add(m2.group(1))
+                uses_u.append(u)
             out = ("// GENERATED by /verif/lib/gen_segments.py from the current source; do not edit\n"
                    "#![allow(unused, unused_mut, unused_variables, unused_imports, unused_assignments, unreachable_code, "
                    "clippy::all)]\n"
